@@ -901,6 +901,47 @@ def r06_8(prog, rep):
         rep.broken_("rule=R06.8 expected >=2 uses of slot-derived values in chkpnta, found %d" % n)
 
 
+def r06_10(prog, rep, rid="R06.10"):
+    """write(2) may write less than it was asked to (a full pipe, a signal, a nearly full disk) without that being an error.  The
+    writers of this code base resume behind the part that was written: `write(fd, buf + done, total - done)`.  The offset added to the
+    buffer and the amount taken off the length must be the same expression — a resumed write with the full length appends what lies
+    behind the valid part of the buffer (stale records, NULs) to the file, and no error is seen, so the rename goes ahead."""
+    n = 0
+    seen = set()
+    for f in prog.all_fns():
+        if not f.cfg:
+            continue
+        for b, i, x, line in f.cfg.all_elems():
+            if not isinstance(x, dict):
+                continue
+            for c in calls(x):
+                if c.get("fn") not in ("write", "send", "pwrite") or len(c.get("a", ())) < 3:
+                    continue
+                buf = strip_casts(f.cfg.resolve(c["a"][1]))
+                ln = strip_casts(f.cfg.resolve(c["a"][2]))
+                if not (buf.get("k") == "bin" and buf["op"] == "+"):
+                    continue
+                off = strip_casts(buf["r"])
+                if int_value(off) is not None or not any(r_.get("k") == "ref" and r_.get("dk") in ("local", "param") for r_ in walk(off)):
+                    continue
+                sig = (f.file, f.name, c.get("line", line), show(buf))
+                if sig in seen:
+                    continue
+                seen.add(sig)
+                n += 1
+                k_ = sum(1 for s_ in seen if s_[1] == f.name and s_[0] == f.file)
+                key = "%s/resumed-write#%d(%s)" % (f.name, k_, show(off)[:20])
+                good = ln.get("k") == "bin" and ln["op"] == "-" and show(strip_casts(ln["r"])) == show(off)
+                if good:
+                    rep.ok(rid, key, f.loc(c.get("line", line)), "offset %s is taken off the length (%s)" % (show(off), show(ln)[:40]))
+                else:
+                    rep.fail(rid, key, f.loc(c.get("line", line)), "the write resumes at `%s` but its length `%s` is not reduced by %s: after a "
+                             "short write the bytes behind the valid part of the buffer are written out too — the file holds stale "
+                             "fragments, no error is seen and it is renamed over the live one" % (show(buf)[:40], show(ln)[:30], show(off)[:20]))
+    if n < 1:
+        rep.broken_("rule=%s expected the resumed write of fdflush(), found %d" % (rid, n))
+
+
 def run(prog, rep, tier, snap):
     rep.rule("R06.1", "write-close-rename protocol in every function that renames into the spool", 12)
     rep.call(r06_1, prog, rep)
@@ -916,6 +957,8 @@ def run(prog, rep, tier, snap):
     rep.call(r06_7, prog, rep)
     rep.rule("R06.8", "values read from the per-user slot array are not used after the index has moved on", 2)
     rep.call(r06_8, prog, rep)
+    rep.rule("R06.10", "a write resumed after a short write continues with the rest, not with the full length again", 1)
+    rep.call(r06_10, prog, rep)
     rep.rule("R06.9", "the all-users dump is triggered at the capacity at which the change list saturates", 1)
     rep.call(r06_9, prog, rep)
     from ..rules import valist
